@@ -167,4 +167,10 @@ example :
     execImportFrom env0 (some "math") false [⟨"*", none⟩] [] = { binds := [("pi", .attr "host:math" "pi")], err := none } := by
   decide
 
+/-- a name that the enclosing function declares `global` is looked up in the global symbol table only: it can never be
+a host builtin, whatever the name -/
+theorem C17_builtins_global_declared (ne : NameEnv) (x : String) :
+    lookupGlobalDeclared ne x ≠ .host := by
+  unfold lookupGlobalDeclared; split <;> simp
+
 end PsModel.C17
